@@ -1,0 +1,95 @@
+//go:build verif
+// +build verif
+
+// Verification-only accessors (build tag `verif`) for participant selection (buildParticipantConfig)
+// and the round bookkeeping of BlockPool. Every function only calls existing code of this package;
+// nothing here is compiled into a normal build.
+package vbft
+
+import (
+	"github.com/ontio/ontology-crypto/keypair"
+	vconfig "github.com/polynetwork/poly/consensus/vbft/config"
+)
+
+// VerifBuildParticipantConfig runs Server.buildParticipantConfig on a fresh Server that carries only
+// what the function reads (Index and a state manager for the log line).
+func VerifBuildParticipantConfig(index uint32, blkNum uint32, block *Block, chainCfg *vconfig.ChainConfig) (*BlockParticipantConfig, error) {
+	srv := &Server{Index: index, stateMgr: &StateMgr{}}
+	return srv.buildParticipantConfig(blkNum, block, chainCfg)
+}
+
+// VerifSelectionSeed is getParticipantSelectionSeed.
+func VerifSelectionSeed(block *Block) vconfig.VRFValue { return getParticipantSelectionSeed(block) }
+
+// VerifDraw is calcParticipant: the k-th draw from the position table for a seed.
+func VerifDraw(vrf vconfig.VRFValue, table []uint32, k uint32) uint32 {
+	return calcParticipant(vrf, table, k)
+}
+
+type (
+	VerifPoolProposal = blockProposalMsg
+	VerifPoolEndorse  = blockEndorseMsg
+	VerifPoolCommit   = blockCommitMsg
+)
+
+// VerifPool is a BlockPool on a Server that carries exactly the state BlockPool reads from it:
+// Index, config (C, N), currentParticipantConfig, the peer pool (built with the real NewPeerPool /
+// addPeer / peerConnected) and a chain store that knows block `chained` (no ledger behind it).
+type VerifPool struct {
+	Srv  *Server
+	Pool *BlockPool
+}
+
+func VerifNewPool(index uint32, cfg *vconfig.ChainConfig, part *BlockParticipantConfig, connected []uint32, chained uint32, chainedBlock *Block) (*VerifPool, error) {
+	srv := &Server{Index: index, config: cfg, currentParticipantConfig: part, stateMgr: &StateMgr{}, currentBlockNum: chained + 1}
+	srv.peerPool = NewPeerPool(0, srv)
+	for _, p := range cfg.Peers {
+		if err := srv.peerPool.addPeer(p); err != nil {
+			return nil, err
+		}
+	}
+	for _, i := range connected {
+		if err := srv.peerPool.peerConnected(i); err != nil {
+			return nil, err
+		}
+	}
+	srv.chainStore = &ChainStore{chainedBlockNum: chained, pendingBlocks: map[uint32]*PendingBlock{chained: {block: chainedBlock}}}
+	pool, err := newBlockPool(srv, 0, srv.chainStore)
+	if err != nil {
+		return nil, err
+	}
+	srv.blockPool = pool
+	return &VerifPool{Srv: srv, Pool: pool}, nil
+}
+
+func (p *VerifPool) NewProposal(m *VerifPoolProposal) error { return p.Pool.newBlockProposal(m) }
+func (p *VerifPool) NewEndorse(m *VerifPoolEndorse) error   { return p.Pool.newBlockEndorsement(m) }
+func (p *VerifPool) NewCommit(m *VerifPoolCommit) error     { return p.Pool.newBlockCommitment(m) }
+
+func (p *VerifPool) EndorseDone(blkNum uint32, C uint32) (uint32, bool, bool) {
+	return p.Pool.endorseDone(blkNum, C)
+}
+
+func (p *VerifPool) EndorseFailed(blkNum uint32, C uint32) bool {
+	return p.Pool.endorseFailed(blkNum, C)
+}
+
+func (p *VerifPool) CommitDone(blkNum uint32, C uint32, N uint32) (uint32, bool, bool) {
+	return p.Pool.commitDone(blkNum, C, N)
+}
+
+func (p *VerifPool) IsEndorser(blkNum uint32, idx uint32) bool { return p.Srv.isEndorser(blkNum, idx) }
+
+// AddSignatures is addSignaturesToBlockLocked under the pool lock (as setBlockSealed calls it).
+func (p *VerifPool) AddSignatures(block *Block, forEmpty bool) error {
+	p.Pool.lock.Lock()
+	defer p.Pool.lock.Unlock()
+	return p.Pool.addSignaturesToBlockLocked(block, forEmpty)
+}
+
+func (p *VerifPool) PeerPubKey(idx uint32) keypair.PublicKey { return p.Srv.peerPool.GetPeerPubKey(idx) }
+
+// VerifCommitConsensus is getCommitConsensus.
+func VerifCommitConsensus(msgs []*VerifPoolCommit, C int, N int) (uint32, bool) {
+	return getCommitConsensus(msgs, C, N)
+}
